@@ -48,7 +48,7 @@ fn probes(w: i32, h: i32) -> Vec<Vec<Op>> {
     let s1 = SrcSpec::Solid(0xff204080);
     let s2 = SrcSpec::Solid(0x80002040);
     let img = super::c03::image_of(3, 2, &VALS12, 3);
-    vec![
+    let v = vec![
         vec![Op::Fill(full.clone(), s1.clone(), Opts::default())],
         vec![Op::Fill(full.clone(), s2.clone(), Opts { mode: BlendMode::Src, alpha: 1.0, aa: true })],
         vec![Op::Fill(full.clone(), s2.clone(), Opts { mode: BlendMode::Xor, alpha: 0.5, aa: true })],
@@ -59,8 +59,14 @@ fn probes(w: i32, h: i32) -> Vec<Vec<Op>> {
         vec![Op::Mask(0, 0, w, h, (0..w * h).map(|i| [255u8, 128, 64, 1][(i % 4) as usize]).collect(), s1.clone())],
         vec![Op::DrawImageAt(1., 1., 3, 2, img, Opts { mode: BlendMode::SrcOver, alpha: 1.0, aa: true })],
         vec![Op::Stroke(PathSpec::new(vec![POp::M(0., 0.), POp::L(wf, hf)]), StyleSpec { width: 2.0, cap: 2, join: 0, miter: 4., dash: vec![], offset: 0. }, s1.clone(), Opts::default())],
-        vec![Op::PushLayer(0.5, BlendMode::SrcOver), Op::Fill(full, s1, Opts::default()), Op::PopLayer],
-    ]
+        vec![Op::PushLayer(0.5, BlendMode::SrcOver), Op::Fill(full.clone(), s1.clone(), Opts::default()), Op::PopLayer],
+    ];
+    // a text run whose left and top are cut by the clips of the alphabet
+    let mut v = v;
+    if font_available() {
+        v.push(vec![Op::Text(6.0, "ab".to_string(), -0.5, hf - 0.5, s1, Opts::default())]);
+    }
+    v
 }
 
 fn scene_str(w: i32, h: i32, dst: &Dst, hist: &[Op], probe: &[Op]) -> String {
